@@ -194,6 +194,20 @@ def parse_functions(mir):
     return fns
 
 
+def parse_named_consts(mir):
+    """simple constant items: `const vm::NAME: u32 = { ... _0 = const 16_u32; ... }`"""
+    out = {}
+    for m in re.finditer(r"^const ([\w:]+): [^=\n]+ = const ([^;\n]+);", mir, flags=re.M):
+        out[m.group(1)] = m.group(2).strip()
+        out[m.group(1).split("::")[-1]] = m.group(2).strip()
+    for m in re.finditer(r"^const ([\w:]+): [^=\n]+ = \{\n(.*?)^\}\n", mir, flags=re.S | re.M):
+        vm = re.search(r"_0 = const ([^;\n]+);", m.group(2))
+        if vm:
+            out[m.group(1)] = vm.group(1).strip()
+            out[m.group(1).split("::")[-1]] = vm.group(1).strip()
+    return out
+
+
 def int_width(ty):
     ty = ty.strip()
     return {"u8": 8, "u16": 16, "u32": 32, "u64": 64, "usize": 64, "i8": 8, "i16": 16, "i32": 32, "i64": 64, "isize": 64}.get(ty)
@@ -214,6 +228,7 @@ class Machine:
         self.fns_executed = set()
         self.stmts = 0
         self.obligations = []  # (name, state, violated_condition)
+        self.named_consts = {}  # path -> literal text, from `const NAME: ty = { .. _0 = const LIT; .. }` items of the dump
 
     # ---- solver helpers
     def sat(self, pc, extra=None):
@@ -376,6 +391,9 @@ class Machine:
             return z3.BitVecVal(int(m.group(1)), int_width(m.group(2)))
         if text.startswith("ZeroSized"):
             return Token("zst")
+        for key in (text, text.split("::")[-1]):
+            if key in self.named_consts:
+                return self.const(self.named_consts[key])
         raise Unknown("constant %r" % text)
 
     def operand(self, st, text):
